@@ -282,6 +282,8 @@ def rule_poll_shared(ctx, M, u, prefix):
         c03.rule_stop(ctx, u)
         if M.config == "std":
             c16.rule_gate(ctx, u)
+        if u.family == "stream_group":
+            c01.rule_rearm(ctx, u)
     # the index polled is drawn from self.keys
     for c in u.cps:
         kind, det = families.loop_domain(u, c)
